@@ -54,17 +54,21 @@ MCInit == Init /\ MonInit /\ env = [nreq |-> 0, nfault |-> 0, ncall |-> 0, nupd 
 
 Bump(f) == env' = [env EXCEPT ![f] = @ + 1]
 
+LoopQuiet == S.cbq = <<>> /\ S.susq = <<>> /\ S.pendRet = <<>>
 MCNext ==
-  \/ /\ S.pc = "fetch"
+  \/ /\ S.pc = "fetch" /\ LoopQuiet
      /\ LET g == Top1(S.gens) IN
         Fetch(IF g.k = "env" THEN ProgReact(g, FetchInput(S)) ELSE ListReact(g, FetchInput(S)))
      /\ UNCHANGED env
-  \/ /\ S.pc = "exec"
+  \/ /\ S.pc = "exec" /\ LoopQuiet
      /\ \/ Exec("ok") /\ UNCHANGED env
         \/ /\ env.nfault < MaxFaults /\ S.cur.cmd \in DevCmds
            /\ \E d \in FaultKinds : (d \in {"fail", "later"} => S.cur.cmd \in StatusCmds) /\ Exec(d)
            /\ Bump("nfault")
-  \/ (Start \/ Top \/ Wake \/ AfterSleep0 \/ (\E b \in BOOLEAN : DeliverCancel(b)) \/ CmdDone \/ Exit \/ TailStep \/ Finally \/ AOpsStep \/ AOpsCancel) /\ UNCHANGED env
+  \* (REMC follows the discipline of the harness, on which the monitors' accounting of suspender trips relies: what a
+  \*  suspender operation has scheduled on the loop lands before the run task takes its next step; RE.tla itself allows
+  \*  the run task to step in between -- RETrace would accept such a trace)
+  \/ LoopQuiet /\ (Start \/ Top \/ Wake \/ AfterSleep0 \/ (\E b \in BOOLEAN : DeliverCancel(b)) \/ CmdDone \/ Exit \/ TailStep \/ Finally \/ AOpsStep \/ AOpsCancel) /\ UNCHANGED env
   \/ /\ env.nreq < MaxReq
      /\ \/ "pause" \in ReqKinds /\ ReqPause(FALSE) /\ Bump("nreq")
         \/ "defer" \in ReqKinds /\ ReqPause(TRUE) /\ Bump("nreq")
